@@ -42,9 +42,7 @@ theorem step_rel (rc : Bool) {m : Migration} {db db' : DB} (h : Rel m db) (s : S
                 · exact ⟨_, by simpa [List.map_map, Function.comp_def] using (Option.some.inj he).symm⟩
             obtain ⟨pk', hdb⟩ := key
             subst hdb
-            have hnew : db.has t = false := by
-              simp only [Bool.or_eq_true, not_or] at hc1
-              simpa using hc1.1
+            have hnew : db.has t = false := by simpa using hc1
             have hnd : (cols.map (·.name)).Nodup := by
               have : allNodup ((cols.map colOf).map (·.1.name)) = true := by simpa using hc2
               have hn : (cols.map colOf).map (·.1.name) = cols.map (·.name) := by
